@@ -560,4 +560,135 @@ theorem C09_matured_withdraw_tx_succeeds (s : Sys) (u : Addr) (inv : FullQ s [])
   rw [hh]
   exact (C01_paid_once s.hub h' s.hubEnv u ms hw).2
 
+
+/-! ### the unbond that closes the batch: the Undelegate messages go through on the chain -/
+
+/-- the Undelegate messages of a plan that asks no validator for more than it holds are all
+    accepted by the staking module; they change nothing but delegations and the unbonding queue -/
+theorem run_undelegates : ∀ (vs : List (Addr × Nat)) (ps : List Nat) (s : Sys) (rest : List Msg),
+    (vs.map (·.1)).Nodup → (∀ x ∈ vs, s.chain.deleg x.1 = x.2) →
+    (∀ j, nth ps j ≤ nth (vs.map (·.2)) j) →
+    ∃ k s', k ≤ vs.length ∧ SameContracts s s' ∧ s'.chain.time = s.chain.time ∧ s'.chain.height = s.chain.height ∧
+      s'.chain.bank = s.chain.bank ∧
+      ∀ n, Sys.run (n + k) s (zipMsgs (fun v p => Msg.undelegate hubA v p) vs ps ++ rest) = Sys.run n s' rest := by
+  intro vs
+  induction vs with
+  | nil =>
+    intro ps s rest _ _ _
+    exact ⟨0, s, Nat.le_refl _, SameContracts.refl s, rfl, rfl, rfl, fun n => by simp [zipMsgs]⟩
+  | cons x vs ih =>
+    intro ps s rest hnd hd hle
+    obtain ⟨v, d⟩ := x
+    cases ps with
+    | nil => exact ⟨0, s, Nat.zero_le _, SameContracts.refl s, rfl, rfl, rfl, fun n => by simp [zipMsgs]⟩
+    | cons p ps =>
+      have hnd' : v ∉ vs.map (·.1) ∧ (vs.map (·.1)).Nodup := by
+        have : (v :: vs.map (·.1)).Nodup := hnd
+        exact List.nodup_cons.mp this
+      have hle' : ∀ j, nth ps j ≤ nth (vs.map (·.2)) j := fun j => by
+        have := hle (j + 1); simpa [nth] using this
+      have hp : p ≤ d := by have := hle 0; simpa [nth] using this
+      have hdv : s.chain.deleg v = d := hd (v, d) (List.mem_cons_self ..)
+      by_cases hp0 : p = 0
+      · -- nothing asked of this validator: no message
+        obtain ⟨k, s', hk, sc, ht, hh, hb, hrun⟩ := ih ps s rest hnd'.2
+          (fun y hy => hd y (List.mem_cons_of_mem _ hy)) hle'
+        refine ⟨k, s', by simp; omega, sc, ht, hh, hb, fun n => ?_⟩
+        simp only [zipMsgs, hp0, if_true, List.nil_append]
+        exact hrun n
+      · obtain ⟨s1, hs1⟩ : ∃ y : Sys, y = { s with chain := { s.chain with
+            deleg := upd s.chain.deleg v (s.chain.deleg v - p),
+            delegSet := upd s.chain.delegSet v (decide (s.chain.deleg v - p > 0)),
+            unbondingQ := s.chain.unbondingQ ++ [(v, p, s.chain.time + s.chain.unbondingTime)] } } := ⟨_, rfl⟩
+        have H : s.handle (Msg.undelegate hubA v p) = .ok (s1, []) := by
+          simp only [Sys.handle, bind, Except.bind, pure, Except.pure]
+          rw [if_neg (by simp), if_neg hp0, if_neg (by omega), hs1]
+        obtain ⟨k, s', hk, sc, ht, hh, hb, hrun⟩ := ih ps s1 rest hnd'.2
+          (fun y hy => by
+            have hne : y.1 ≠ v := fun e => hnd'.1 (by
+              have : y.1 ∈ vs.map (·.1) := List.mem_map.mpr ⟨y, hy, rfl⟩
+              rw [e] at this; exact this)
+            rw [hs1]; simp only [upd, hne, if_false]
+            exact hd y (List.mem_cons_of_mem _ hy)) hle'
+        have sc1 : SameContracts s s1 := by rw [hs1]; exact ⟨rfl, rfl, rfl, rfl, rfl, rfl⟩
+        refine ⟨k + 1, s', by simp; omega, sc1.trans sc, by rw [ht, hs1], by rw [hh, hs1], by rw [hb, hs1], fun n => ?_⟩
+        simp only [zipMsgs, hp0, if_false, List.cons_append]
+        have e : n + (k + 1) = (n + k) + 1 := by omega
+        rw [e]
+        simp only [Sys.run, H, List.nil_append]
+        exact hrun n
+
+theorem mem_insDesc (x y : Addr × Nat) (l : List (Addr × Nat)) : y ∈ insDesc x l ↔ y = x ∨ y ∈ l := by
+  induction l with
+  | nil => simp [insDesc]
+  | cons z zs ih =>
+    simp only [insDesc]
+    split
+    · simp
+    · simp only [List.mem_cons, ih]
+      constructor
+      · rintro (h | h | h)
+        · exact Or.inr (Or.inl h)
+        · exact Or.inl h
+        · exact Or.inr (Or.inr h)
+      · rintro (h | h | h)
+        · exact Or.inr (Or.inl h)
+        · exact Or.inl h
+        · exact Or.inr (Or.inr h)
+
+theorem mem_sortDesc (y : Addr × Nat) (l : List (Addr × Nat)) : y ∈ sortDesc l ↔ y ∈ l := by
+  induction l with
+  | nil => simp [sortDesc]
+  | cons x xs ih =>
+    have : sortDesc (x :: xs) = insDesc x (sortDesc xs) := rfl
+    rw [this, mem_insDesc, ih]; simp
+
+theorem nodup_insDesc (x : Addr × Nat) (l : List (Addr × Nat)) (hx : x.1 ∉ l.map (·.1))
+    (hl : (l.map (·.1)).Nodup) : ((insDesc x l).map (·.1)).Nodup := by
+  induction l with
+  | nil => simp [insDesc]
+  | cons z zs ih =>
+    simp only [insDesc]
+    have hl' : z.1 ∉ zs.map (·.1) ∧ (zs.map (·.1)).Nodup := List.nodup_cons.mp hl
+    have hx' : x.1 ≠ z.1 ∧ x.1 ∉ zs.map (·.1) := by
+      simp only [List.map_cons, List.mem_cons, not_or] at hx; exact hx
+    split
+    · simp only [List.map_cons]
+      exact List.nodup_cons.mpr ⟨by simp only [List.mem_cons, not_or]; exact hx', hl⟩
+    · simp only [List.map_cons]
+      apply List.nodup_cons.mpr
+      refine ⟨?_, ih hx'.2 hl'.2⟩
+      intro hm
+      obtain ⟨w, hw, he⟩ := List.mem_map.mp hm
+      rcases (mem_insDesc x w zs).mp hw with h | h
+      · subst h; exact hx'.1 he
+      · exact hl'.1 (List.mem_map.mpr ⟨w, h, he⟩)
+
+theorem nodup_sortDesc (l : List (Addr × Nat)) (hl : (l.map (·.1)).Nodup) : ((sortDesc l).map (·.1)).Nodup := by
+  induction l with
+  | nil => simp [sortDesc]
+  | cons x xs ih =>
+    have hl' : x.1 ∉ xs.map (·.1) ∧ (xs.map (·.1)).Nodup := List.nodup_cons.mp hl
+    have : sortDesc (x :: xs) = insDesc x (sortDesc xs) := rfl
+    rw [this]
+    apply nodup_insDesc _ _ _ (ih hl'.2)
+    intro hm
+    obtain ⟨w, hw, he⟩ := List.mem_map.mp hm
+    exact hl'.1 (List.mem_map.mpr ⟨w, (mem_sortDesc w xs).mp hw, he⟩)
+
+/-- the hub's delegations as the staking module reports them: one entry per validator, with the
+    delegated amount -/
+theorem delegationsOf_facts (s : Sys) :
+    ((s.delegationsOf hubA).map (·.1)).Nodup ∧ ∀ x ∈ s.delegationsOf hubA, s.chain.deleg x.1 = x.2 := by
+  unfold Sys.delegationsOf
+  simp only [if_true]
+  constructor
+  · rw [List.map_map]
+    have : ((fun x : Addr × Nat => x.1) ∘ fun v => (v, s.chain.deleg v)) = id := by funext v; rfl
+    rw [this, List.map_id]
+    exact List.Pairwise.sublist List.filter_sublist (by decide)
+  · intro x hx
+    obtain ⟨v, _, he⟩ := List.mem_map.mp hx
+    subst he; rfl
+
 end Krp
